@@ -11,4 +11,5 @@ let run (line : string) : string =
   | None -> "outoffuel"
   | Some r ->
       let p = r.pr_program in
-      Printf.sprintf "errs=%d m=%s wf=%s" (List.length r.pr_errors) (b01 (m_program p toks)) (b01 (wf_program p))
+      Printf.sprintf "errs=%d m=%s wf=%s mL=%s wfL=%s" (min 1 (List.length r.pr_errors)) (b01 (m_program p toks)) (b01 (wf_program p))
+        (b01 (m_programL p toks)) (b01 (wf_programL p))
